@@ -79,7 +79,8 @@ func (r *Runtime) functionproto_hasInstance(call FunctionCall) Value {
 func (r *Runtime) createListFromArrayLike(a Value) []Value {
 	o := r.toObject(a)
 	if arr := r.checkStdArrayObj(o); arr != nil {
-		return arr.values
+		// a copy: the callee may modify the array in place while it still reads its arguments
+		return append([]Value(nil), arr.values...)
 	}
 	l := toLength(o.self.getStr("length", nil))
 	res := make([]Value, 0, l)
